@@ -403,6 +403,101 @@ def option_variants(r, n):
     return out
 
 
+def _const_pixels(n, v):
+    return [v] * n
+
+
+def extremes(r):
+    """Structured extremes of the valid-file space (kind "valid"): field maxima, boundary crossings,
+    constant and alternating images, copies at column 0 across page boundaries, maximal/split runs."""
+    out = []
+    # MAX: length fields at and above 0x8000 / 0xFF00, widest and narrowest legal widths
+    for cols, rows in ((256, 1024), (512, 1023), (8, 4096), (2040, 1)):
+        nbytes = cols // 8 * rows
+        body = bytes((i * 37 + (i >> 8)) & 255 for i in range(nbytes))
+        data = bytes([0, nbytes >> 8, nbytes & 255, 0x0E, 0x00]) + body
+        c = {"fmt": "max", "kind": "valid", "req": req_max(data, arte=0, cols=cols), "data": data,
+             "arte": 0, "newsroom": False, "cols": cols, "rows": rows}
+        exp = bytearray(b"P6\n%d %d\n255\n" % (cols, rows))
+        for b in body:
+            for k in range(8):
+                exp += b"\xff\xff\xff" if b & (0x80 >> k) else b"\0\0\0"
+        c["expect"] = bytes(exp)
+        out.append(c)
+    c = build_max(r, arte=3, newsroom=True)
+    out.append(c)
+    # HRS: every palette slot used, all 64 codes over four files
+    for base in (0, 16, 32, 48):
+        pal = list(range(base, base + 16))
+        px = [(i + i // 16) % 16 for i in range(32 * 4)]
+        data = bytes(pal) + pack_nib(px)
+        out.append({"fmt": "hrs", "kind": "valid", "req": req_hrs(data, 32, 4), "data": data, "w": 32, "h": 4,
+                    "expect": b"P6\n32 4\n255\n" + b"".join(rgb6(pal[p]) for p in px)})
+    # MGE: composite palette over all 64 codes; maximal runs; runs of length 1; run crossing everything
+    for base in (0, 16, 32, 48):
+        pal = list(range(base, base + 16))
+        px = [(i // 640 + i) % 16 for i in range(64000)]
+        by = pack_nib(px)
+        data = mge_header(r, pal, False, 1) + by
+        out.append({"fmt": "mge", "kind": "valid", "req": req_simple("mge", data), "data": data,
+                    "pal": pal, "rgb": False, "pixels": px, "compressed": False})
+    pal = rand_pal(r)
+    px = _const_pixels(64000, 9)
+    for style in (0, 1):
+        data = mge_header(r, pal, True, 0) + rle_encode(r, pack_nib(px), style=style)
+        out.append({"fmt": "mge", "kind": "valid", "req": req_simple("mge", data), "data": data,
+                    "pal": pal, "rgb": True, "pixels": px, "compressed": True})
+    # RAT: literal equal to the escape byte, maximal runs, runs crossing rows
+    pal = rand_pal(r)
+    px = [((i // 1000) % 8) if i % 2 else ((i // 700) % 16) for i in range(199 * 320)]
+    by = pack_nib(px)
+    for esc in (by[0], by[-1], 0):
+        data = bytes([esc, 1, 0]) + bytes(pal) + rat_encode(r, by, esc, style=0)
+        out.append({"fmt": "rat", "kind": "valid", "req": req_simple("rat", data), "data": data, "pal": pal, "pixels": px})
+    # CM3: two pages, compressed, constant non-zero image: every byte (column 0 included, first line of
+    # page 2 included) is a copy of its left neighbour; then vertical stripes: every byte copies from above
+    pal = rand_pal(r)
+    for pages, pattern in ((2, True), (2, False), (1, True)):
+        for kind in ("const", "stripes", "rows"):
+            rows = pages * 192
+            if kind == "const":
+                px = _const_pixels(rows * 320, 5)
+            elif kind == "stripes":
+                px = [(x * 3 + x // 7) % 16 for _ in range(rows) for x in range(320)]
+            else:
+                px = [((y * 5 + 1) % 16) for y in range(rows) for x in range(320)]
+            by = pack_nib(px)
+            pictyp = (0x80 if pages == 2 else 0) | (0 if pattern else 1)
+            data = bytearray([pictyp]) + bytes(pal) + bytes(12) + (bytes(243) if pattern else b"")
+            prev, prev_last = [0] * 160, 0
+            for p in range(pages):
+                data.append(192)
+                for y in range(192):
+                    cur = list(by[(p * 192 + y) * 160:(p * 192 + y + 1) * 160])
+                    data += cm3_encode_line(r, prev, cur, prev_last, 1)
+                    prev, prev_last = cur, cur[159]
+            out.append({"fmt": "cm3", "kind": "valid", "req": req_simple("cm3", bytes(data)), "data": bytes(data),
+                        "pal": pal, "pixels": px, "pages": pages, "mode_used": 1})
+    # VEF: all three types, squashed with maximal repeat groups (constant rows) and maximal literal groups
+    for t in (0, 1, 3):
+        width, orig_len, veftype = VEF_TYPES[t]
+        depth = 16 if veftype == 8 else 4
+        ppb = 2 if veftype == 8 else 4
+        pal = rand_pal(r)
+        px = [((k // (orig_len * ppb)) % depth) for k in range(400 * orig_len * ppb)]
+        by = pack_nib(px) if veftype == 8 else bytes((px[k] << 6) | (px[k + 1] << 4) | (px[k + 2] << 2) | px[k + 3] for k in range(0, len(px), 4))
+        body = bytearray()
+        for k in range(400):
+            row = by[k * orig_len:(k + 1) * orig_len]
+            rec = bytes([128 + orig_len, row[0]]) if k % 2 == 0 else bytes([orig_len]) + row
+            body += bytes([len(rec)]) + rec
+        data = bytes([128, t]) + bytes(pal) + bytes(body)
+        out.append({"fmt": "vef", "kind": "valid", "req": req_simple("vef", data), "data": data, "pal": pal,
+                    "pixels": px, "width": width, "squashed": True, "veftype": veftype,
+                    "expect_bitmap": bytes(pal[p] for p in px)})
+    return out
+
+
 def structured_damage(case, r):
     """Damage aimed at compression control bytes and count fields (kind "control")."""
     fmt, data = case["fmt"], case["data"]
